@@ -1,5 +1,8 @@
-(* C15: one indexing step of a completion path (`v[1].`, and `v.k.` for a k that is no member) composed from the
-   pieces: element type (array first, then table value) through aliases, then the member closure of that type. *)
+(* C15: completion / definition paths (`v<path>.`): one indexing step, then prefixes of any length, composed from the
+   pieces: element type (array first, then table value) through aliases, member step through the class closure,
+   member closure of the type reached.
+   fa selects the alias resolution (false = before fix 83efc56, true = repaired); the deployed functions
+   (complete_at, define_at, ...) are the `_v true` ones. *)
 From Coq Require Import List NArith Bool.
 From LH Require Import Base.Res Model.Classes Spec.ClassClosure
      Proofs.ClassesTotal Proofs.ClassesClosure Proofs.ClassesElem.
@@ -19,12 +22,13 @@ Proof.
   unfold model_members, model_members_v. unfold class_list in Ho. rewrite Ho. reflexivity.
 Qed.
 
+(* ================================================================== before fix 83efc56 (fa = false) *)
 Lemma resolve_model_noncyclic leaf tm t f :
-  c15_fixed_variant = false -> cyclic_alias leaf tm t f = false ->
-  exists r, resolve_model leaf tm t f = Ok r /\ elem_rel leaf tm t f r.
+  cyclic_alias leaf tm t f = false ->
+  exists r, resolve_model_v false leaf tm t f = Ok r /\ elem_rel leaf tm t f r.
 Proof.
-  intros Hv Hc. destruct (noncyclic_result leaf tm t f Hc) as [r Hr]. exists r. split.
-  - unfold resolve_model. rewrite Hv. unfold cyclic_alias in Hc.
+  intros Hc. destruct (noncyclic_result leaf tm t f Hc) as [r Hr]. exists r. split.
+  - unfold resolve_model_v. unfold cyclic_alias in Hc.
     destruct (detect leaf tm (fuel_of tm) [] t f) as [r'| |] eqn:E.
     + apply detect_done in E. rewrite E in Hr. exact Hr.
     + discriminate.
@@ -33,68 +37,71 @@ Proof.
 Qed.
 
 Theorem index_step_members tm t f l :
-  c15_fixed_variant = false ->
   cyclic_alias leaf_arr tm t f = false -> cyclic_alias leaf_val tm t f = false ->
   exists r, index_rel tm t f r /\
-    complete_at tm (t, f, l) [None] = Ok (match r with Some e => model_members tm e f l | None => [] end).
+    complete_at_v false tm (t, f, l) [None] = Ok (match r with Some e => model_members tm e f l | None => [] end).
 Proof.
-  intros Hv Ha Hb.
-  destruct (resolve_model_noncyclic leaf_arr tm t f Hv Ha) as [ra [Ea Ra]].
-  destruct (resolve_model_noncyclic leaf_val tm t f Hv Hb) as [rb [Eb Rb]].
-  unfold complete_at, follow, sub_key. simpl. rewrite Ea. simpl.
+  intros Ha Hb.
+  destruct (resolve_model_noncyclic leaf_arr tm t f Ha) as [ra [Ea Ra]].
+  destruct (resolve_model_noncyclic leaf_val tm t f Hb) as [rb [Eb Rb]].
+  unfold complete_at_v, follow_v, sub_key_v, index_step_v. cbn [rbind]. rewrite Ea. cbn [rbind].
   destruct ra as [e|].
   - exists (Some e). split; [left; exists e; split; [exact Ra|reflexivity]|].
-    simpl. destruct (model_members_unfold tm e f l) as [o [Ho Hm]]. rewrite Ho. simpl. rewrite Hm. reflexivity.
-  - rewrite Eb. simpl. exists rb. split; [right; split; assumption|].
-    destruct rb as [e|]; simpl; [|reflexivity].
-    destruct (model_members_unfold tm e f l) as [o [Ho Hm]]. rewrite Ho. simpl. rewrite Hm. reflexivity.
+    cbn [rbind]. destruct (model_members_unfold tm e f l) as [o [Ho Hm]]. rewrite Ho. cbn [rbind]. rewrite Hm. reflexivity.
+  - rewrite Eb. cbn [rbind]. exists rb. split; [right; split; assumption|].
+    destruct rb as [e|]; cbn [rbind]; [|reflexivity].
+    destruct (model_members_unfold tm e f l) as [o [Ho Hm]]. rewrite Ho. cbn [rbind]. rewrite Hm. reflexivity.
 Qed.
 
 (* together with the closure theorem: the names offered after `v[1].` are exactly the members of the element type *)
 Theorem index_step_closure tm t f l :
-  wf_tm tm -> c15_fixed_variant = false ->
+  wf_tm tm ->
   cyclic_alias leaf_arr tm t f = false -> cyclic_alias leaf_val tm t f = false ->
-  exists r o, index_rel tm t f r /\ complete_at tm (t, f, l) [None] = Ok o /\
+  exists r o, index_rel tm t f r /\ complete_at_v false tm (t, f, l) [None] = Ok o /\
     match r with
     | Some e => forall x, In x o <-> members_spec tm e x
     | None => o = []
     end.
 Proof.
-  intros Hwf Hv Ha Hb. destruct (index_step_members tm t f l Hv Ha Hb) as [r [Hr Hc]].
+  intros Hwf Ha Hb. destruct (index_step_members tm t f l Ha Hb) as [r [Hr Hc]].
   exists r. eexists. split; [exact Hr|]. split; [exact Hc|].
   destruct r as [e|]; [|reflexivity].
   intros x. apply members_full; assumption.
 Qed.
 
-(* ---------- the same step for the FIXED variant: no cyclicity guard ---------- *)
+(* ================================================================== the repaired alias resolution (fa = true = deployed) *)
+(* the indexing part of symbolHasSubKey = the executable index specification *)
+Lemma index_model tm t f (l : N) :
+  index_step_v true tm t f l = Ok (match index_exec tm t f with Some e => Some (e, f, l) | None => None end).
+Proof.
+  unfold index_step_v. rewrite !resolve_model_fixed.
+  destruct (resolve_fx_total leaf_arr tm t f) as [ra Ea].
+  destruct (resolve_fx_total leaf_val tm t f) as [rb Eb].
+  unfold index_exec. rewrite Ea. cbn [rbind].
+  destruct ra as [e|]; [reflexivity|]. rewrite Eb. cbn [rbind]. destruct rb; reflexivity.
+Qed.
+
 Theorem index_step_members_fixed tm t f l :
-  c15_fixed_variant = true ->
   complete_at tm (t, f, l) [None] =
     Ok (match index_exec tm t f with Some e => model_members tm e f l | None => [] end).
 Proof.
-  intros Hv.
-  destruct (resolve_fx_total leaf_arr tm t f) as [ra Ea].
-  destruct (resolve_fx_total leaf_val tm t f) as [rb Eb].
-  assert (Hi : index_exec tm t f = match ra with Some e => Some e | None => rb end).
-  { unfold index_exec. rewrite Ea, Eb. destruct ra, rb; reflexivity. }
-  rewrite Hi. unfold complete_at, follow, sub_key.
-  rewrite !(resolve_model_fixed _ _ _ _ Hv). rewrite Ea, Eb.
-  cbn -[model_members class_list fuel_of].
-  destruct ra as [e|]; [|destruct rb as [e|]]; cbn -[model_members class_list fuel_of]; try reflexivity;
-    destruct (model_members_unfold tm e f l) as [o [Ho Hm]]; rewrite Ho, Hm; reflexivity.
+  change (complete_at tm (t, f, l) [None]) with (complete_at_v true tm (t, f, l) [None]).
+  unfold complete_at_v, follow_v, sub_key_v. cbn [rbind]. rewrite index_model. cbn [rbind].
+  destruct (index_exec tm t f) as [e|]; cbn [rbind]; [|reflexivity].
+  destruct (model_members_unfold tm e f l) as [o [Ho Hm]]. rewrite Ho, Hm. reflexivity.
 Qed.
 
 (* with the closure theorem: after `v[1].` exactly the members of the element type the specification computes
    (no cyclicity guard, no shadowing guard: both defects are repaired in the deployed model) *)
 Theorem index_step_closure_fixed tm t f l :
-  wf_tm tm -> c15_fixed_variant = true ->
+  wf_tm tm ->
   exists o, complete_at tm (t, f, l) [None] = Ok o /\
     match index_exec tm t f with
     | Some e => forall x, In x o <-> members_spec tm e x
     | None => o = []
     end.
 Proof.
-  intros Hwf Hv. eexists. split; [apply index_step_members_fixed; exact Hv|].
+  intros Hwf. eexists. split; [apply index_step_members_fixed|].
   destruct (index_exec tm t f) as [e|]; [|reflexivity].
   intros x. apply members_full; assumption.
 Qed.
@@ -108,6 +115,22 @@ Proof.
     destruct r; reflexivity.
 Qed.
 
+(* loop variables of `for k, x in pairs(v)` / `ipairs(v)` *)
+Theorem for_value_fixed tm t f l :
+  for_value tm (t, f, l) = Ok (match index_exec tm t f with Some e => Some (e, f, l) | None => None end).
+Proof. exact (index_model tm t f l). Qed.
+
+Theorem for_pairs_key_fixed tm t f l :
+  for_pairs_key tm (t, f, l) = Ok (match pairs_key_exec tm t f with Some e => Some (e, f, l) | None => None end).
+Proof.
+  change (for_pairs_key tm (t, f, l)) with (for_pairs_key_v true tm (t, f, l)).
+  unfold for_pairs_key_v. rewrite !resolve_model_fixed.
+  destruct (resolve_fx_total leaf_arr tm t f) as [ra Ea].
+  destruct (resolve_fx_total leaf_key tm t f) as [rb Eb].
+  unfold pairs_key_exec. rewrite Ea. cbn [rbind].
+  destruct ra as [e|]; [reflexivity|]. rewrite Eb. cbn [rbind]. destruct rb; reflexivity.
+Qed.
+
 (* ================================================================== the two observables of the property, whole *)
 (* member completion after `v.`: exactly the closure (deployed model, no guard) *)
 Theorem complete_full tm t f l :
@@ -115,7 +138,8 @@ Theorem complete_full tm t f l :
 Proof.
   intros Hwf. destruct (model_members_unfold tm t f l) as [o [Ho Hm]].
   exists (member_names o). split.
-  - unfold complete_at, follow. cbn -[class_list fuel_of]. rewrite Ho. reflexivity.
+  - change (complete_at tm (t, f, l) []) with (complete_at_v true tm (t, f, l) []).
+    unfold complete_at_v, follow_v. cbn [rbind]. rewrite Ho. reflexivity.
   - intros x. rewrite <- Hm. apply members_full. exact Hwf.
 Qed.
 
@@ -147,50 +171,6 @@ Proof.
   intros H d [<-|Hd]; [exact E|apply IH; assumption].
 Qed.
 
-(* go-to-definition on `v.k`: lands on a ---@field k line of a reachable class declaration whenever the closure has
-   a member k at all, and answers "no field" only when it has none *)
-Theorem define_full tm t f l k :
-  wf_tm tm -> c15_fixed_variant = true ->
-  (exists loc, define_at tm (t, f, l) [] k = Ok (Some loc) /\ define_spec tm t k loc) \/
-  (define_at tm (t, f, l) [] k = Ok None /\ forall loc, ~ define_spec tm t k loc).
-Proof.
-  intros Hwf Hv. destruct (class_list_terminates tm t f l) as [o Ho].
-  unfold define_at, follow. cbn -[class_list fuel_of first_with resolve_model]. rewrite Ho.
-  cbn -[class_list fuel_of first_with resolve_model].
-  destruct (first_with o k) as [[d fl]|] eqn:Ef.
-  - left. exists (d_file d, f_line fl). split; [reflexivity|].
-    apply first_with_some in Ef. destruct Ef as [Hd Hf]. apply field_of_some in Hf. destruct Hf as [Hin Hn].
-    exists d, fl. split; [eapply class_list_sound; eassumption|]. split; [exact Hin|]. split; [exact Hn|reflexivity].
-  - right. split.
-    + rewrite !(resolve_model_fixed _ _ _ _ Hv).
-      destruct (resolve_fx_total leaf_arr tm t f) as [ra Ea]. rewrite Ea.
-      destruct (resolve_fx_total leaf_val tm t f) as [rb Eb].
-      destruct ra as [e|]; cbn [rbind]; [reflexivity|]. rewrite Eb. reflexivity.
-    + intros loc [d [fl [Hr [Hin [Hn _]]]]].
-      assert (Hk : is_class d).
-      { unfold class_fields in Hin. destruct (d_kind d) as [ps fs|t0] eqn:Hkd; [exists ps, fs; exact Hkd|destruct Hin]. }
-      assert (Hd : In d o) by (eapply class_list_complete; eassumption).
-      apply (field_of_none d k (first_with_none o k Ef d Hd) fl Hin Hn).
-Qed.
-
-(* ================================================================== member prefixes of any length *)
-(* the indexing part of symbolHasSubKey in the deployed model = the executable index specification *)
-Lemma index_model tm t f (l : N) :
-  c15_fixed_variant = true ->
-  (do a <- resolve_model leaf_arr tm t f;
-   match a with
-   | Some e => Ok (Some (e, f, l))
-   | None => do v <- resolve_model leaf_val tm t f;
-             match v with Some e => Ok (Some (e, f, l)) | None => Ok None end
-   end) = Ok (match index_exec tm t f with Some e => Some (e, f, l) | None => None end).
-Proof.
-  intros Hv. rewrite !(resolve_model_fixed _ _ _ _ Hv).
-  destruct (resolve_fx_total leaf_arr tm t f) as [ra Ea].
-  destruct (resolve_fx_total leaf_val tm t f) as [rb Eb].
-  unfold index_exec. rewrite Ea. cbn [rbind].
-  destruct ra as [e|]; [reflexivity|]. rewrite Eb. cbn [rbind]. destruct rb; reflexivity.
-Qed.
-
 Lemma no_field_no_define tm t f l o k :
   wf_tm tm -> class_list (fuel_of tm) tm t f l = Ok o -> first_with o k = None ->
   forall loc, ~ define_spec tm t k loc.
@@ -202,34 +182,65 @@ Proof.
   apply (field_of_none d k (first_with_none o k Ef d Hd) fl Hin Hn).
 Qed.
 
+(* the last step of go-to-definition, from the type the prefix denotes *)
+Lemma define_last tm t f l k :
+  wf_tm tm ->
+  let r := (do o <- class_list (fuel_of tm) tm t f l;
+            match first_with o k with
+            | Some (d, fl) => Ok (Some (d_file d, f_line fl))
+            | None => do a <- index_step_v true tm t f l; Ok None
+            end) in
+  (exists loc, r = Ok (Some loc) /\ define_spec tm t k loc) \/
+  (r = Ok None /\ forall loc, ~ define_spec tm t k loc).
+Proof.
+  intros Hwf. destruct (class_list_terminates tm t f l) as [o Ho]. cbn zeta. rewrite Ho. cbn [rbind].
+  destruct (first_with o k) as [[d fl]|] eqn:Ef.
+  - left. exists (d_file d, f_line fl). split; [reflexivity|].
+    apply first_with_some in Ef. destruct Ef as [Hd Hf]. apply field_of_some in Hf. destruct Hf as [Hin Hn].
+    exists d, fl. split; [eapply class_list_sound; eassumption|]. split; [exact Hin|]. split; [exact Hn|reflexivity].
+  - right. split; [rewrite index_model; reflexivity|].
+    exact (no_field_no_define tm t f l o k Hwf Ho Ef).
+Qed.
+
+(* go-to-definition on `v.k`: lands on a ---@field k line of a reachable class declaration whenever the closure has
+   a member k at all, and answers "no field" only when it has none *)
+Theorem define_full tm t f l k :
+  wf_tm tm ->
+  (exists loc, define_at tm (t, f, l) [] k = Ok (Some loc) /\ define_spec tm t k loc) \/
+  (define_at tm (t, f, l) [] k = Ok None /\ forall loc, ~ define_spec tm t k loc).
+Proof. intros Hwf. exact (define_last tm t f l k Hwf). Qed.
+
+(* ================================================================== member prefixes of any length *)
 (* one step of the deployed model is one step of the specification *)
 Lemma sub_key_step tm t f l key :
-  wf_tm tm -> c15_fixed_variant = true ->
+  wf_tm tm ->
   (exists k d fl, key = Some k /\ reachable_def tm t d /\ In fl (class_fields d) /\ f_name fl = k /\
                   sub_key tm (t, f, l) key = Ok (Some (f_ty fl, d_file d, d_line d))) \/
   (no_member tm t key /\
    sub_key tm (t, f, l) key = Ok (match index_exec tm t f with Some e => Some (e, f, l) | None => None end)).
 Proof.
-  intros Hwf Hv. unfold sub_key. destruct key as [k|].
+  intros Hwf. change (sub_key tm (t, f, l) key) with (sub_key_v true tm (t, f, l) key).
+  unfold sub_key_v. destruct key as [k|].
   - destruct (class_list_terminates tm t f l) as [o Ho]. rewrite Ho. cbn [rbind].
     destruct (first_with o k) as [[d fl]|] eqn:Ef.
     + left. exists k, d, fl. split; [reflexivity|].
       apply first_with_some in Ef. destruct Ef as [Hd Hf]. apply field_of_some in Hf. destruct Hf as [Hin Hn].
       split; [eapply class_list_sound; eassumption|]. split; [exact Hin|]. split; [exact Hn|reflexivity].
     + right. split; [exact (no_field_no_define tm t f l o k Hwf Ho Ef)|].
-      apply index_model. exact Hv.
-  - right. split; [exact I|]. cbn [rbind]. apply index_model. exact Hv.
+      apply index_model.
+  - right. split; [exact I|]. cbn [rbind]. apply index_model.
 Qed.
 
 (* following a prefix never fails and follows the specification *)
 Theorem follow_path tm :
-  wf_tm tm -> c15_fixed_variant = true ->
+  wf_tm tm ->
   forall path s, exists r, follow tm s path = Ok r /\ path_rel tm s path r.
 Proof.
-  intros Hwf Hv. induction path as [|key rest IH]; intros [[t f] l].
+  intros Hwf. induction path as [|key rest IH]; intros [[t f] l].
   - exists (Some (t, f, l)). split; [reflexivity|constructor].
-  - cbn [follow].
-    destruct (sub_key_step tm t f l key Hwf Hv) as [[k [d [fl [-> [Hr [Hin [Hn E]]]]]]]|[Hno E]]; rewrite E; cbn [rbind].
+  - change (follow tm (t, f, l) (key :: rest))
+      with (do r <- sub_key tm (t, f, l) key; match r with Some s' => follow tm s' rest | None => Ok None end).
+    destruct (sub_key_step tm t f l key Hwf) as [[k [d [fl [-> [Hr [Hin [Hn E]]]]]]]|[Hno E]]; rewrite E; cbn [rbind].
     + destruct (IH (f_ty fl, d_file d, d_line d)) as [r [Er Pr]]. exists r. split; [exact Er|].
       eapply PR_member; eassumption.
     + destruct (index_exec tm t f) as [e|] eqn:Ei.
@@ -239,15 +250,21 @@ Qed.
 
 (* completion after `v<path>.`: exactly the closure of the type the prefix denotes *)
 Theorem complete_path_full tm s path :
-  wf_tm tm -> c15_fixed_variant = true ->
+  wf_tm tm ->
   exists r o, path_rel tm s path r /\ complete_at tm s path = Ok o /\
     match r with
     | Some (t', _, _) => forall x, In x o <-> members_spec tm t' x
     | None => o = []
     end.
 Proof.
-  intros Hwf Hv. destruct (follow_path tm Hwf Hv path s) as [r [Er Pr]].
-  unfold complete_at. rewrite Er. cbn [rbind].
+  intros Hwf. destruct (follow_path tm Hwf path s) as [r [Er Pr]].
+  change (complete_at tm s path) with
+    (do r <- follow tm s path;
+     match r with
+     | Some (t, f, l) => do o <- class_list (fuel_of tm) tm t f l; Ok (member_names o)
+     | None => Ok []
+     end).
+  rewrite Er. cbn [rbind].
   destruct r as [[[t' f'] l']|].
   - destruct (model_members_unfold tm t' f' l') as [o [Ho Hm]].
     exists (Some (t', f', l')), (member_names o). split; [exact Pr|]. split.
@@ -258,7 +275,7 @@ Qed.
 
 (* go-to-definition on `v<path>.k` *)
 Theorem define_path_full tm s path k :
-  wf_tm tm -> c15_fixed_variant = true ->
+  wf_tm tm ->
   exists r, path_rel tm s path r /\
     match r with
     | Some (t', _, _) =>
@@ -267,9 +284,20 @@ Theorem define_path_full tm s path k :
     | None => define_at tm s path k = Ok None
     end.
 Proof.
-  intros Hwf Hv. destruct (follow_path tm Hwf Hv path s) as [r [Er Pr]].
-  exists r. split; [exact Pr|]. unfold define_at. rewrite Er. cbn [rbind].
+  intros Hwf. destruct (follow_path tm Hwf path s) as [r [Er Pr]].
+  exists r. split; [exact Pr|].
+  change (define_at tm s path k) with
+    (do r <- follow tm s path;
+     match r with
+     | Some (t, f, l) =>
+         do o <- class_list (fuel_of tm) tm t f l;
+         match first_with o k with
+         | Some (d, fl) => Ok (Some (d_file d, f_line fl))
+         | None => do a <- index_step_v true tm t f l; Ok None
+         end
+     | None => Ok None
+     end).
+  rewrite Er. cbn [rbind].
   destruct r as [[[t' f'] l']|]; [|reflexivity].
-  pose proof (define_full tm t' f' l' k Hwf Hv) as Hd.
-  unfold define_at, follow in Hd. cbn [rbind] in Hd. exact Hd.
+  exact (define_last tm t' f' l' k Hwf).
 Qed.
